@@ -1058,6 +1058,8 @@ static PSymbolEntry FindLocNode(char const* Name, TempType SearchType);
 
 static PSymbolEntry FindNode(char const* Name, TempType SearchType);
 
+static LongInt UserFuncNestLevel = 0; /* user-defined functions being evaluated */
+
 /*!------------------------------------------------------------------------
  * \fn     EvalResultClear(tEvalResult *pResult)
  * \brief  reset all elements of EvalResult
@@ -1528,7 +1530,17 @@ void EvalStrExpression(tStrComp const* pExpr, TempResult* pErg) {
                 LEAVE2;
             }
             StrCompMkTemp(&CompArg, CompArgStr.p_str, CompArgStr.capacity);
+
+            /* a function that (directly or indirectly) calls itself would recurse
+               until the stack is used up: same limit as for macros */
+
+            if ((NestMax > 0) && (UserFuncNestLevel >= NestMax)) {
+                WrStrErrorPos(ErrNum_RekMacro, &FName);
+                LEAVE2;
+            }
+            UserFuncNestLevel++;
             EvalStrExpression(&CompArg, pErg);
+            UserFuncNestLevel--;
             pErg->Flags |= PromotedFlags;
             pErg->AddrSpaceMask |= PromotedAddrSpaceMask;
             if (pErg->DataSize == eSymbolSizeUnknown) {
